@@ -6,6 +6,7 @@ import (
 	"fmt"
 	"math/rand"
 	"os"
+	"path"
 	"path/filepath"
 	"regexp"
 	"runtime"
@@ -488,7 +489,9 @@ func c02normErr(s string) string {
 func c02classify(desc json.RawMessage, stderr string) (string, string) {
 	var cs c02case
 	json.Unmarshal(desc, &cs)
-	if cs.Cyclic && strings.Contains(stderr, "stack overflow") || cs.Cyclic && strings.Contains(stderr, "goroutine stack exceeds") {
+	// known finding K1 is identified by what the case IS (a template set whose extends/import references form a cycle),
+	// not by how it was generated: a mutated or noisy source can contain {{ extends "t" }} in /t.jet as well
+	if (cs.Cyclic || c02hasCycle(cs)) && (strings.Contains(stderr, "stack overflow") || strings.Contains(stderr, "goroutine stack exceeds")) {
 		return "c02:crash:stack-overflow:cyclic-reference", "cyclic-extends"
 	}
 	kind := "crash"
@@ -496,6 +499,52 @@ func c02classify(desc json.RawMessage, stderr string) (string, string) {
 		kind = "crash-in-lexer-goroutine"
 	}
 	return "c02:" + kind + ":" + cs.Class + ":" + firstCrashLine(stderr), ""
+}
+
+var c02refRe = regexp.MustCompile(`(?:extends|import)\s*"([^"]*)"`)
+
+// c02hasCycle reports whether the extends/import references of the case's files (resolved like the Set does: relative to
+// the referring file, default extension list) contain a cycle reachable from the requested template.
+func c02hasCycle(cs c02case) bool {
+	files := map[string]string{}
+	for k, v := range cs.Files {
+		files[k] = v
+	}
+	if cs.Name != "" {
+		files[cs.Name] = cs.Src
+	}
+	resolve := func(from, name string) string {
+		p := name
+		if !strings.HasPrefix(p, "/") {
+			p = path.Join(path.Dir(from), p)
+		}
+		p = path.Clean(p)
+		for _, ext := range []string{"", ".jet", ".html.jet", ".jet.html"} {
+			if _, ok := files[p+ext]; ok {
+				return p + ext
+			}
+		}
+		return ""
+	}
+	state := map[string]int{}
+	var visit func(f string) bool
+	visit = func(f string) bool {
+		switch state[f] {
+		case 1:
+			return true
+		case 2:
+			return false
+		}
+		state[f] = 1
+		for _, m := range c02refRe.FindAllStringSubmatch(files[f], -1) {
+			if t := resolve(f, m[1]); t != "" && visit(t) {
+				return true
+			}
+		}
+		state[f] = 2
+		return false
+	}
+	return visit(cs.Name)
 }
 
 var numRe = regexp.MustCompile(`0x[0-9a-f]+|\d+`)
